@@ -7,7 +7,7 @@ from ..core import Fail
 PID = "C03"
 RULE = ("per seed a pool of shapes built to contain every pattern (nested, hole-in-hole, unbounded in unbounded, "
         "component-wise, crossing, disjoint, L-shapes with squares in the notch, Empty, Whole); all ordered pairs in "
-        "general position (or nested without contact): `B in A`, A.contains_shape(B), the corollaries A in A, "
+        "general position (or nested without contact), plus simple shapes whose boundaries touch without crossing (shared vertex, vertex on an edge, shared part of an edge; bounded/unbounded): `B in A`, A.contains_shape(B), the corollaries A in A, "
         "B in A => A|B == A and A&B == B; contains_jordan with both flags for curves against shapes; exact subset "
         "oracle by slab sampling; non-trivial = bounding boxes overlap and neither is Empty/Whole; distinct = SHA-1")
 PROOF_STATUS = ("Props/C03.v: Empty/Whole rows, composition rules for Connected/Disjoint containers and contents; "
@@ -47,8 +47,50 @@ def _compatible(a, b):
     return G.general_position(ja, jb)
 
 
+def _touching(rng):
+    """a polygon and a small polygon that touches it without crossing: apex on a vertex ("v"), apex inside an edge ("e"),
+    or a side lying on part of an edge ("ee"); inside or outside; -> the two boundaries (both counter-clockwise)"""
+    P = G.ccw(G.star_polygon(rng, n=rng.randint(3, 6), R=8, center=(0, 0), rmin=0.5))
+    n = len(P)
+    i = rng.randrange(n)
+    mode = rng.choice(["v", "e", "ee"])
+    a, b = P[i], P[(i + 1) % n]
+    if mode == "v":
+        apex = a
+    else:
+        t = F(rng.randint(1, 3), 4)
+        apex = (a[0] + t * (b[0] - a[0]), a[1] + t * (b[1] - a[1]))
+    cx, cy = sum(p[0] for p in P) / n, sum(p[1] for p in P) / n
+    sgn = rng.choice([1, -1])
+    d = ((apex[0] - cx) * sgn, (apex[1] - cy) * sgn)
+    k = F(rng.randint(1, 4), 4)
+    if mode == "ee":
+        q0 = (a[0] + F(1, 4) * (b[0] - a[0]), a[1] + F(1, 4) * (b[1] - a[1]))
+        q1 = (a[0] + F(3, 4) * (b[0] - a[0]), a[1] + F(3, 4) * (b[1] - a[1]))
+        Q = [q0, q1, (q1[0] + k * d[0] / 2, q1[1] + k * d[1] / 2), (q0[0] + k * d[0] / 2, q0[1] + k * d[1] / 2)]
+    else:
+        base = (apex[0] + k * d[0], apex[1] + k * d[1])
+        perp = (-d[1] * k / 3, d[0] * k / 3)
+        Q = [apex, (base[0] + perp[0], base[1] + perp[1]), (base[0] - perp[0], base[1] - perp[1])]
+    if len(set(Q)) < len(Q) or not G.is_simple_polygon(Q):
+        return None
+    return mode, G.verts_to_jordan(P), G.verts_to_jordan(G.ccw(Q))
+
+
 def cases(ctx):
     rng = ctx.rng
+    # simple shapes whose boundaries touch without crossing (shared vertex, vertex on an edge, shared part of an
+    # edge), bounded and unbounded in all four combinations, both directions
+    for _ in range(ctx.n(12, 150)):
+        t = _touching(rng)
+        if t is None:
+            continue
+        mode, ja, jb = t
+        oa, ob = rng.random() < 0.5, rng.random() < 0.6
+        a = ("S", U.reverse_jordan(ja) if oa else ja)
+        b = ("S", U.reverse_jordan(jb) if ob else jb)
+        yield {"a": a, "b": b, "same": False, "touch": mode}
+        yield {"a": b, "b": a, "same": False, "touch": mode}
     npools = ctx.n(2, 40)
     for _ in range(npools):
         pool = _pool(rng)
@@ -123,6 +165,8 @@ def check(ctx, case):
         return fails
     b = case["b"]
     ctx.count("B:" + U.shape_kind(b))
+    if case.get("touch"):
+        ctx.count("touching:" + case["touch"])
     B = I.mk_shape(b)
     ri = I.outcome(lambda: bool(B in A))
     rm = ctx.model.contains_shape(a, b)
@@ -149,7 +193,7 @@ def check(ctx, case):
         truth = _subset(a, b, pts)
     if ri != ("ok", truth):
         fails.append(Fail(kind="O", what="`B in A` is not the subset relation", impl=ri, expected=truth))
-    elif truth and a[0] not in "EW" and b[0] not in "EW" and not case.get("same"):
+    elif truth and a[0] not in "EW" and b[0] not in "EW" and not case.get("same") and not case.get("touch"):
         # consequences: A|B == A and A&B == B (as regions)
         A2, B2 = I.mk_shape(a), I.mk_shape(b)
         ru = I.outcome(lambda: I.shape_data(A2 | B2))
